@@ -132,6 +132,11 @@ type bucketData struct {
 	hash         []byte
 	etag         string
 	metadata     map[string]string
+
+	// nullVersion marks a version created while versioning was not enabled
+	// (S3's "null" version); it is the only version that writes and deletes
+	// made while versioning is not enabled may replace.
+	nullVersion bool
 }
 
 func (bi *bucketData) toObject(rangeRequest *gofakes3.ObjectRangeRequest, withBody bool) (obj *gofakes3.Object, err error) {
@@ -219,6 +224,7 @@ func (b *bucket) objectVersion(objectName string, versionID gofakes3.VersionID) 
 func (b *bucket) put(name string, item *bucketData) {
 	// Always generate a version for convenience; we can just mask it on return.
 	item.versionID = b.versionGen()
+	item.nullVersion = b.versioning != gofakes3.VersioningEnabled
 
 	object := b.object(name)
 	if object == nil {
@@ -226,7 +232,9 @@ func (b *bucket) put(name string, item *bucketData) {
 		b.objects.Set(name, object)
 	}
 
-	if b.versioning == gofakes3.VersioningEnabled {
+	// A version created while versioning was enabled is kept even when it is
+	// superseded after versioning has been suspended:
+	if b.versioning == gofakes3.VersioningEnabled || (object.data != nil && !object.data.nullVersion) {
 		if object.data != nil {
 			if object.versions == nil {
 				object.versions = skiplist.NewCustomMap(func(l, r interface{}) bool {
@@ -253,9 +261,18 @@ func (b *bucket) rm(name string, at time.Time) (result gofakes3.ObjectDeleteResu
 		result.IsDeleteMarker = true
 		result.VersionID = item.versionID
 
+	} else if object.data != nil && !object.data.nullVersion {
+		// Versioning is suspended and the current version dates from when it
+		// was enabled: it must survive, so the delete is recorded as a (null)
+		// delete marker on top of it.
+		item := &bucketData{lastModified: at, name: name, deleteMarker: true}
+		b.put(name, item)
+		result.IsDeleteMarker = true
+
 	} else {
 		object.data = nil
-		if object.versions == nil || object.versions.Len() == 0 {
+		object.promote()
+		if object.data == nil {
 			b.objects.Delete(name)
 		}
 	}
